@@ -2819,10 +2819,13 @@ class AggregateBase(UnitsManaged, Saveable, OpenSystem):
                     HH = self.get_Hamiltonian()
                     Ndim = HH.dim
                     re = numpy.zeros(Ndim-start, dtype=numpy.float64)
-                    # we need to subtract reorganization energies
+                    # we need to subtract reorganization energies; with
+                    # vibrational levels several states of the band belong 
+                    # to the same electronic (site) state
                     for i in range(n1ex):
+                        i_el = self.elinds[start+i]
                         re[i] = \
-                        self.sbi.get_reorganization_energy(i)
+                        self.sbi.get_reorganization_energy(i_el-1)
                 else:
                     HH = relaxation_hamiltonian
                     Ndim = HH.dim
